@@ -72,6 +72,10 @@ def accept_value(kind, key, prev_key):
         return r.swapcase()
     if kind == "empty":
         return ""
+    if kind == "utf8tail":       # non-ASCII but valid UTF-8 on the wire
+        return (r[:-2] + "\u00e9=").encode("utf-8").decode("latin-1")
+    if kind == "latin1tail":     # a byte that is not UTF-8
+        return r[:-1] + "\xe9"
     raise ValueError(kind)
 
 
@@ -307,7 +311,7 @@ def finding_for(ctx, clause, sc):
 STATUSES = [101, 100, 200, 204, 301, 302, 303, 307, 308, 400, 404, 500]
 UPGRADES = [None, " websocket", " WebSocket", " foo, websocket", "  websocket  ", " websocketx", "", " websocket, bar"]
 CONNS = [None, " Upgrade", " upgrade", " keep-alive, Upgrade", "  Upgrade  ", " Upgradex", "", " close"]
-ACCEPTS = ["right", "missing", "wrong", "prevkey", "otherkey", "truncated", "padded", "caseswapped", "empty"]
+ACCEPTS = ["right", "missing", "wrong", "prevkey", "otherkey", "truncated", "padded", "caseswapped", "empty", "utf8tail"]
 SUBS = [(None, None), (None, "a"), (["a", "b"], None), (["a", "b"], " a"), (["a", "b"], " A"), (["a", "b"], " c"),
         (["Chat"], " chat"), (["a", "b"], "")]
 
@@ -437,6 +441,9 @@ def fam_garbage_heads(rng, tier):
         for bl in bad_lines:
             add(spec={"status": st, "upgrade": " websocket", "connection": " Upgrade", "accept": "right", "extra": [bl],
                       "location": "ws://x.test/" if st == 302 else None})
+    for ak in ("utf8tail", "latin1tail", "empty", "padded"):
+        for sub in (None, " a"):
+            add(spec={"status": 101, "upgrade": " websocket", "connection": " Upgrade", "accept": ak, "subproto": sub})
     for cl in ["abc", "-1", "-5", "0", "1e3", " 12 ", "12, 12", "99999999999", "100000000000", "65536", "1000000", "0x10", "", "١٢"]:
         for st in (400, 404, 500, 200):
             big = cl.strip().isdigit() and int(cl) > REQ_CAP
